@@ -149,9 +149,17 @@ def check_case(run, case, tier='quick'):
                     # retrained ruleset under the same name: the session must be refused
                     spec2 = dict(case['spec'], uuid='ffffffff-0000-4000-8000-' + '%012x' % rng.getrandbits(48))
                     rulesets.write_ruleset(path, spec2)
+                    how = rng.choice(['other', 'other', 'blank', 'missing'])
+                    if how != 'other':
+                        # the ruleset now under that name carries no UUID at all (an empty `uuid =` line, or none): it is not the ruleset of the saved session
+                        cfgp = os.path.join(path, 'config.ini')
+                        lines = open(cfgp, encoding='utf-8').read().split('\n')
+                        lines = [('uuid = ' if how == 'blank' else None) if l.startswith('uuid') else l for l in lines]
+                        open(cfgp, 'w', encoding='utf-8').write('\n'.join(l for l in lines if l is not None))
+                        run.ev('loads_on_a_ruleset_without_a_uuid')
                     r = session.run_main(['-r', name, '-s', sn, '--load'])
                     run.ev('uuid_mismatch_loads')
-                    if r.guesses or r.pops or 'UUID' not in r.stderr:
+                    if r.guesses or r.pops or (how == 'other' and 'UUID' not in r.stderr):
                         run.violation('session restored although the ruleset UUID differs from the saved one', case,
                                       observed={'guesses': r.guesses[:5], 'stderr_tail': r.stderr[-300:]})
                         return
